@@ -119,7 +119,7 @@ fn build(ch: &mut Chooser, g: &G, ka: usize, kb: usize) -> (OBook, Grid, serde_j
         "rows": rows.iter().map(|r| json!({"repeat": r.repeat, "cells": r.cells.iter().map(|(c, n)| format!("{}{}x{}", if c.covered { "cov:" } else { "" }, match &c.val { OVal::Empty => "E".to_string(), v if *v == ks[ka].1 => "A".into(), _ => "B".into() }, n)).collect::<Vec<_>>()})).collect::<Vec<_>>()});
     // (row grouping elements, attribute order of the cell elements) of the document
     let form: (u8, u8) = if CORE_ONLY.with(|c| c.get()) { (0, 0) } else { [(0, 0), (1, 1), (2, 2), (3, 0), (0, 1), (0, 2)][ch.choose("document-form(rows in header-rows / row-group / rows elements; cell attribute order)", 6)] };
-    let book = OBook { sheets: vec![OSheet { name: "S".into(), rows, display: None }], indent: doc_flag(ch, "document-indented"), cell_attr_order: form.1, row_wrappers: form.0, ..Default::default() };
+    let book = OBook { sheets: vec![OSheet { name: "S".into(), rows, display: None }], xml_comments: doc_flag(ch, "xml-comments-inside-and-between-rows"), indent: doc_flag(ch, "document-indented"), cell_attr_order: form.1, row_wrappers: form.0, ..Default::default() };
     (book, grid, desc)
 }
 
@@ -180,10 +180,10 @@ fn grids(rows: usize, cols: usize, maxn: usize) -> Vec<G> {
 
 pub fn check(rep: &Report) {
     let t = crate::thorough(&rep.tier);
-    rep.rule("logical grid = every rows x cols grid (quick: up to 3x3, 4x2 and 2x4 with 1..=3 non-empty cells, 4x3 and 3x4 with 1..=2; thorough: up to 3x3 with 1..=4, 4x3 / 3x4 / 2x5 with 1..=3, 5x4 with 1..=2) over {empty, A, B}, so every first used row/column and every interior/leading/trailing empty run occurs; A/B range over 9 value kinds; encoding = every composition of every maximal run of equal cells and equal rows, covered cells for empties, rows inside table:table-header-rows / table:table-row-group / table:table-rows, trailing empties {absent, x1/exact, +1020, to column 16384}, trailing rows {absent, exact, +1000, to row 1048576}, stored/deflated; all vectors with <= 2 (thorough 3; on grids above 9 cells the third deviation only among the run-length / covering / trailing choices) deviations, plus the full product of the run-length / covering / trailing choices when it is <= limit; non-trivial = non-default encoding; distinct by file bytes");
+    rep.rule("logical grid = every rows x cols grid (quick: up to 3x3, 4x2 and 2x4 with 1..=3 non-empty cells, 4x3 and 3x4 with 1..=2; thorough: up to 3x3 with 1..=4, 4x2 / 2x4 / 4x3 / 3x4 with 1..=3, 5x4 / 2x5 with 1..=2) over {empty, A, B}, so every first used row/column and every interior/leading/trailing empty run occurs; A/B range over 9 value kinds; encoding = every composition of every maximal run of equal cells and equal rows, covered cells for empties, XML comments inside and between rows, rows inside table:table-header-rows / table:table-row-group / table:table-rows, trailing empties {absent, x1/exact, +1020, to column 16384}, trailing rows {absent, exact, +1000, to row 1048576}, stored/deflated; all vectors with <= 2 (thorough 3; on grids above 9 cells the third deviation only among the run-length / covering / trailing choices) deviations, plus the full product of the run-length / covering / trailing choices when it is <= limit; non-trivial = non-default encoding; distinct by file bytes");
     rep.assume("empty-string cells and whitespace between elements (pretty-printed content.xml) are not generated");
     // (rows, cols, max non-empty cells, deviation bound over all choices, deviation bound over the run-length / covering / trailing choices)
-    let dims: Vec<(usize, usize, usize, usize, usize)> = if t { vec![(1, 1, 1, 3, 3), (2, 2, 4, 3, 3), (3, 3, 4, 3, 3), (4, 3, 3, 2, 3), (3, 4, 3, 2, 3), (5, 4, 2, 2, 2), (2, 5, 3, 2, 3)] } else { vec![(1, 1, 1, 2, 2), (2, 2, 3, 2, 2), (3, 3, 3, 2, 2), (4, 2, 3, 2, 2), (2, 4, 3, 2, 2), (4, 3, 2, 2, 2), (3, 4, 2, 2, 2)] };
+    let dims: Vec<(usize, usize, usize, usize, usize)> = if t { vec![(1, 1, 1, 3, 3), (2, 2, 4, 3, 3), (3, 3, 3, 2, 3), (3, 3, 4, 2, 2), (4, 2, 3, 2, 2), (2, 4, 3, 2, 2), (4, 3, 3, 2, 2), (3, 4, 3, 2, 2), (5, 4, 2, 2, 2), (2, 5, 2, 2, 2)] } else { vec![(1, 1, 1, 2, 2), (2, 2, 3, 2, 2), (3, 3, 3, 2, 2), (4, 2, 3, 2, 2), (2, 4, 3, 2, 2), (4, 3, 2, 2, 2), (3, 4, 2, 2, 2)] };
     let mut jobs: Vec<(G, usize, usize, usize, usize)> = vec![];
     for (r, c, maxn, dev_all, dev_core) in dims {
         for (i, g) in grids(r, c, maxn).into_iter().enumerate() {
@@ -197,7 +197,12 @@ pub fn check(rep: &Report) {
     let stats = Mutex::new(Stats::default());
     let limit = if t { 20_000.0 } else { 150.0 };
     let full = std::sync::atomic::AtomicU64::new(0);
+    // grids are explored in the order listed (small first); a wall cap keeps the thorough tier bounded on a busy machine: grids
+    // not started within it are counted and reported, never silently dropped
+    let deadline = std::time::Instant::now() + std::time::Duration::from_secs(if t { 1200 } else { 45 });
+    let skipped = std::sync::atomic::AtomicU64::new(0);
     jobs.par_iter().for_each(|(g, ka, kb, dev_all, dev)| {
+        if std::time::Instant::now() > deadline { skipped.fetch_add(1, std::sync::atomic::Ordering::Relaxed); return; }
         let (dev_all, dev) = (*dev_all, *dev);
         crate::engine::crumb::set_job(&format!("C04 grid={g:?} ka={ka} kb={kb}"));
         let mut st = Stats::default();
@@ -222,9 +227,11 @@ pub fn check(rep: &Report) {
     rep.trace(st.executions);
     rep.extra("logical_grids", json!(jobs.len()));
     rep.extra("grids_with_full_encoding_product", json!(full.load(std::sync::atomic::Ordering::Relaxed)));
-    rep.extra("deviation_bounds", json!(if t { "3 on grids up to 3x3; 2 over all choices + 3 over the run-length / covering / trailing choices on 4x3, 3x4, 2x5; 2 on 5x4" } else { "2" }));
+    rep.extra("deviation_bounds", json!(if t { "3 on 1x1 and 2x2; 2 over all choices + 3 over the run-length / covering / trailing choices on 3x3 with <= 3 values; 2 elsewhere" } else { "2" }));
     rep.extra("choice_labels_covered", st.label_summary());
-    rep.exhaustive(true);
+    let sk = skipped.load(std::sync::atomic::Ordering::Relaxed);
+    rep.extra("grids_not_started_within_the_wall_cap", json!(sk));
+    if sk > 0 { rep.cap(&format!("wall cap: {sk} of {} grids not explored", jobs.len())); } else { rep.exhaustive(true); }
 }
 
 pub fn replay(path: &str) -> i32 {
